@@ -37,7 +37,10 @@ class C19(Prop):
         rng, tier = ctx['rng'], ctx['tier']
         n = 40 if tier == 'quick' else scale(4000)
         hostile = ['', 'Copyright (c) X', 'a\n\n  b  \n', '*/ int evil();', '#include <evil>\x0bint main(){}\x85x',
-                   'line1\rline2\r\nline3', '  \t ', 'trailing backslash \\', '\u2028x\u2029y', '// already']
+                   'line1\rline2\r\nline3', '  \t ', 'trailing backslash \\', '\u2028x\u2029y', '// already',
+                   '// first line only\nint evil();', '  // x\n#define final\n', '//\n};struct Oops{', '/* a */\nint y;', '//a\r\nint z;']
+        from harness import gen_text as GT
+        hostile = hostile + [GT.gen_str(rng) for _ in range(12)] + ['//' + GT.gen_str(rng) for _ in range(6)]
 
         def code(contents):
             return [l for l in contents.splitlines() if l.strip() and not l.lstrip().startswith('//')]
